@@ -75,15 +75,9 @@ func c18Gating(r *an.Run, m *runModel) {
 		r.Check(an.IsCallTo(c, logPrintf), short(f)+"|skip-arm|"+an.TrimModule(an.CalleeName(c)), c.Pos(), "a generated file is left completely untouched: the skip arm only logs (found %s)", an.TrimModule(an.CalleeName(c)))
 	}
 	// errors are not touched on the skip arm
-	for i, ev := range m.errsPhi.Edges {
-		if skipRegion[m.errsPhi.Block().Preds[i]] && skipRegion[call.Block()] {
-			if ev != ssa.Value(m.errsPhi) && m.errsPhi.Block().Preds[i] != call.Block() {
-				// edge from the skip arm must carry the accumulator unchanged
-				if an.Reach([]*ssa.BasicBlock{call.Block().Succs[brs[0].EdgeWhen(true)]}, func(b *ssa.BasicBlock, j int) bool { return b.Succs[j] == m.loop.Loop.Header })[m.errsPhi.Block().Preds[i]] {
-					r.Fail(short(f)+"|skip-arm|errors", call.Pos(), "skipping a generated file records an error")
-				}
-			}
-		}
+	skipOnly := an.Reach([]*ssa.BasicBlock{call.Block().Succs[brs[0].EdgeWhen(true)]}, func(b *ssa.BasicBlock, j int) bool { return b.Succs[j] == m.loop.Loop.Header })
+	for _, rec := range m.acc.recordsIn(skipOnly) {
+		r.Fail(short(f)+"|skip-arm|errors", rec.at.Pos(), "skipping a generated file records an error")
 	}
 	// order: before Apply and before every output
 	r.Check(call.Block().Dominates(m.apply.Block()) || reachesOnlyAfter(m, call), short(f)+"|before-apply", call.Pos(), "the skip decision is taken before any change is applied")
